@@ -67,7 +67,7 @@ def spec_universe(tier):
 DEFAULTS = ["[]", "{}", "set()", "([],)", "{'k': []}", "[[1]]"]
 DECL_KINDS = ["schema-plain", "schema-field", "schema-factory", "dataclass-plain", "dataclass-field", "func-plain", "func-param",
               "schema-defer", "schema-defer-options", "dataclass-defer", "schema-defer-factory", "schema-force-default",
-              "schema-force-default-runtime"]
+              "schema-force-default-runtime", "func-posonly", "func-kwonly"]
 
 
 def bounds(tier):
@@ -186,6 +186,10 @@ def decl_source(kind, dexpr):
                 "OPT = Options(force_default=D)\ndef new():\n    return S.__from__({}, options=OPT)\nget = lambda r: [r.a, r.b]\n")
     if kind == "func-plain":
         return f"D = {dexpr}\n@utype.parse\ndef F(a: Any = D, n: int = 0):\n    return a\ndef new():\n    return F()\nget = lambda r: r\n"
+    if kind == "func-posonly":
+        return f"D = {dexpr}\n@utype.parse\ndef F(a: Any = D, /, n: int = 0):\n    return a\ndef new():\n    return F()\nget = lambda r: r\n"
+    if kind == "func-kwonly":
+        return f"D = {dexpr}\n@utype.parse\ndef F(*, a: Any = D):\n    return a\ndef new():\n    return F()\nget = lambda r: r\n"
     if kind == "func-param":
         return f"D = {dexpr}\n@utype.parse\ndef F(a: Any = Param(D)):\n    return a\ndef new():\n    return F()\nget = lambda r: r\n"
     raise ValueError(kind)
@@ -400,6 +404,11 @@ CALL_KINDS = [
     ("depfunc-both", "DF(a=1, b=2, p=3, q=4)"),
     ("depfunc-first-only", "DF(a=1, p=3)"),
     ("keyed-int-keys", "sorted(map(str, Keyed.__from__({1: 2, 'v': '3'}).items()))"),
+    # texts whose reading depends on a format choice: the choice made for one value is not remembered for the next
+    ("date-day-first", "type_transform('03/04/2023', date)"),
+    ("date-month-first-only", "type_transform('12/25/2023', date)"),
+    ("date-day-first-only", "type_transform('25/12/2023', datetime)"),
+    ("date-invalid", "type_transform('13/13/2023', date)"),
 ]
 _SEQ = [0]
 
